@@ -83,7 +83,8 @@ func genC08(r *h.Rng, tier string, idx int) *h.Plan {
 	for i := range ids {
 		ids[i] = fmt.Sprintf("n%d", i)
 	}
-	p.Cfg["ids"] = toIface(append(append([]string{}, ids...), "ghost"))
+	p.Cfg["ids"] = toIface(append(append([]string{}, ids...), "ghost", "x1", "x2"))
+	propChain := false
 	p.Cfg["locs"] = toIface([]string{"L"})
 	p.Cfg["patterns"] = c08Patterns
 	shape := r.Intn(5)
@@ -134,6 +135,13 @@ func genC08(r *h.Rng, tier string, idx int) *h.Plan {
 		if r.P(1, 5) || ((i == expiringNode || alsoExpiring[i]) && r.Bool()) {
 			// a property attached to this node
 			p.Ops = append(p.Ops, h.Op{K: "setprop", Loc: "L", Id: id, S: "color", J: "red"})
+			if !propChain && r.Bool() {
+				// ... and items that hang on the property itself (a property fact is
+				// an item like any other: what names it goes when it goes)
+				propChain = true
+				p.Ops = append(p.Ops, h.Op{K: "addfact", Loc: "L", Id: "x1", J: map[string]interface{}{"node": "x1", "deleteWith": []interface{}{h.PropId(id, "color")}}})
+				p.Ops = append(p.Ops, h.Op{K: "addfact", Loc: "L", Id: "x2", J: map[string]interface{}{"node": "x2", "deleteWith": []interface{}{"x1"}}})
+			}
 		}
 		if kind == 1 && r.P(1, 3) {
 			p.Ops = append(p.Ops, h.Op{K: "enable", Loc: "L", Id: id, B: false})
